@@ -9,3 +9,27 @@ func runThorough(P *Prog, r *Result, id, repo string) {
 }
 
 var thoroughProps = map[string]func(P *Prog, r *Result, repo string){}
+
+func init() {
+	// C18 thorough: the same rule under GOARCH=386, where int is 32 bits wide
+	// (int64→int becomes lossy) and build-tagged files of that platform are loaded.
+	thoroughProps["C18"] = func(P *Prog, r *Result, repo string) {
+		P2, err := Load(repo, "386", false)
+		if err != nil {
+			r.broken("GOARCH=386 load failed: %v", err)
+			return
+		}
+		if err := P2.discoverRoles(); err != nil {
+			r.broken("GOARCH=386 role discovery failed: %v", err)
+			return
+		}
+		sub := NewResult(r.Prop, r.Tier)
+		checkC18(P2, sub)
+		r.Obls = append(r.Obls, sub.Obls...)
+		for k, v := range sub.Instances {
+			r.Instances[k] += v
+		}
+		r.Broken = append(r.Broken, sub.Broken...)
+		r.info("thorough: rule repeated with GOARCH=386 (%d additional obligations)", len(sub.Obls))
+	}
+}
